@@ -309,7 +309,7 @@ pub fn run(args: &Args, rep: &mut Report) {
 fn coll_step<'a>(a: &'a Bump, k: u64, keep_s: &mut Vec<BString<'a>>, keep_v: &mut Vec<BVec<'a, u64>>) -> [usize; 4] {
     use bumpalo::collections::CollectIn;
     let n = (k >> 8) as usize % 300;
-    let (len, cap) = match k % 10 {
+    let (len, cap) = match k % 11 {
         0 => {
             let s = bumpalo::format!(in a, "{:>1$}|{2}", k % 97, n % 90, "x".repeat(n % 40));
             let r = (s.len(), s.capacity());
@@ -380,6 +380,19 @@ fn coll_step<'a>(a: &'a Bump, k: u64, keep_s: &mut Vec<BString<'a>>, keep_v: &mu
                 (0, 0)
             }
         }
+        9 => {
+            // a reservation that this arena's limit refuses (the limit is lifted again right away)
+            let mut v: BVec<u32> = BVec::with_capacity_in(2, a);
+            a.set_allocation_limit(Some(a.allocated_bytes()));
+            let refused = v.try_reserve(100_000 + n).is_err();
+            a.set_allocation_limit(None);
+            for i in 0..(n % 20) as u32 {
+                v.push(i);
+            }
+            let r = (v.len() + refused as usize * 1000, v.capacity());
+            std::mem::forget(v);
+            r
+        }
         _ => {
             let s = BString::from_utf8_lossy_in(&[b'a', 0xFF, b'b', (k % 200) as u8], a);
             let r = (s.len(), s.capacity());
@@ -439,7 +452,7 @@ pub fn collections_twin(args: &Args, rep: &mut Report) {
         if let Some(i) = (0..solo.len()).find(|&i| solo[i] != mixed[i]) {
             rep.violate(
                 "C20",
-                format!("C20/collections-twin/solo-and-interleaved-runs-differ/step-kind-{}", prog[i] % 10),
+                format!("C20/collections-twin/solo-and-interleaved-runs-differ/step-kind-{}", prog[i] % 11),
                 format!("step {}: alone (len, capacity, allocated_bytes, chunk_capacity) = {:?}, with another arena working in between = {:?}", i, solo[i], mixed[i]),
             );
         }
